@@ -39,7 +39,7 @@ func init() {
 			"ThreadSanitizer keeps a bounded access history; worlds are kept short",
 			"the simulated disk is internally synchronised (like a kernel); races through it are not visible to the detector",
 		},
-		Real:        append(append([]string{}, realAll...), "db/fs (compiled against the simulated os)"),
+		Real:        append(append([]string{}, realAll...), "db/fs (compiled against the simulated os)", "resource.PoResource over generated .po files on the real file system (one run in 8, shared by all sessions)"),
 		Stub:        append(append([]string{}, stubAll...), "OS filesystem (simfs)", "goroutine scheduler decisions (baton, drawn from the tape)"),
 		HangSeconds: 120, // single runs of this check take seconds, more on a loaded machine
 		FaultKinds:  []string{"schedule_switch", "restart"},
